@@ -35,10 +35,13 @@ StepFont(e) ==
         THEN Drift(e.case, "chars", [font |-> e.name]) ELSE TRUE
      /\ IF ~fo.wf /\ \E k \in 1..Len(e.probes) : e.probes[k][2] # IndexT(e.map, e.repl, e.probes[k][1])
         THEN Drift(e.case, "index", [font |-> e.name]) ELSE TRUE
-     \* the '?' glyph is the replacement of the built-in fonts (informational)
-     /\ IF e.builtin = 1 /\ fo.wf /\ IndexIn(fo.exp, e.repl, 63) # e.repl
-        THEN Drift(e.case, "replacement_is_not_question_mark", [font |-> e.name]) ELSE TRUE
-     /\ Stat([fonts |-> 1, mapped_chars |-> Len(fo.exp), probes |-> Len(e.probes)])
+     \* informational statistics about the built-in fonts (not demanded by the property text): the
+     \* replacement glyph is not '?'; atlas cells that no character designates
+     /\ Stat([fonts |-> 1, mapped_chars |-> Len(fo.exp), probes |-> Len(e.probes),
+              builtin_replacement_not_qmark |-> IF e.builtin = 1 /\ fo.wf /\ IndexIn(fo.exp, e.repl, 63) # e.repl THEN 1 ELSE 0,
+              builtin_cells_not_designated |->
+                IF e.builtin = 1 /\ fo.wf /\ e.cw > 0 /\ e.ch > 0
+                THEN Max(0, (e.aw \div e.cw) * (e.ah \div e.ch) - Len(fo.exp)) ELSE 0])
 StepLine(e) ==
   /\ e.ev = "line"
   /\ font.set
